@@ -7,5 +7,6 @@ from excel2pycl.src.translators.abstract_translator import AbstractTranslator
 class PatternTokenTranslator(AbstractTranslator):
     @classmethod
     def translate(cls, token: PatternToken, excel: Excel, context: Context) -> str:
-        # the pattern text without its double quotes, emitted as a string literal
-        return f'self._regexp({repr(token.value[0][1:-1])})'
+        # The pattern text without its double quotes, emitted as a string literal.
+        # It becomes a regular expression only where it is used as a criterion (see LambdaTokenTranslator)
+        return repr(token.value[0][1:-1])
